@@ -43,7 +43,7 @@ ACTIONS = ['Resolve', 'BeginCase', 'AccessCase', 'ConfPhase', 'ParseAct', 'Valid
            'Finish']
 ALL_MUTS = ['none', 'envAll', 'envAct', 'envNon', 'unset', 'unsetAct', 'expand', 'expandAct', 'cdTmp', 'cdUp', 'cdSub',
             'timeout', 'def', 'refX', 'files', 'stdin', 'statusFail', 'statusSkip', 'actorNull', 'obsT', 'syntaxErr',
-            'envBA', 'envCleanup', 'defLate', 'cdLate', 'timeoutLate', 'homeConf', 'inclShared']
+            'envBA', 'envCleanup', 'defLate', 'cdLate', 'timeoutLate', 'homeConf', 'inclShared', 'cdGone']
 CORE_MUTS = ['envAll', 'expand', 'cdTmp', 'def', 'files', 'statusFail', 'inclShared']
 ENDS = ['pass', 'fail', 'hard', 'acthard', 'cleanuphard']
 QUICK_ENDS = ['pass', 'fail', 'hard']
@@ -274,6 +274,8 @@ def render(i, own, ph):
         return ['file -rel-%s %s = x' % (a, b)]
     if op == 'copy':
         return ['copy @HOME@/data.txt -rel-%s %s' % (a, b)]
+    if op == 'rmcwd':
+        return ['$ rmdir ../sub']
     if op == 'pwdfile':
         return ['$ printf %s "$(pwd -P)" > ../tmp/pwd.txt']
     if op == 'timeout':
